@@ -26,7 +26,9 @@ RULE = ("KMeans::fit + predict on every 1-D data set of 2..5 rows over {0..4} (k
         "single precision; k in 2..8 with at least k distinct rows, max_iter in {1,2,3,5,10,30,100}, R "
         "repeated fits per data set; offset families (small lattice rows + a common offset of ~1e9 / 2^30 per "
         "column, results shifted back); the data sets for which Lloyd.tla reaches an empty cluster, refitted "
-        "2400 / 9000 times each; rows one ulp apart (child process).  BBDTree::clustering on random "
+        "2400 / 9000 times each; likewise the composition data sets (all rows with the same coordinate total) for "
+        "which Lloyd.tla shows a member exchange at constant count and coordinate total, plus simplex layers, "
+        "multiset permutations, grids and random compositions in 2..4 dimensions refitted 90 / 600 times; rows one ulp apart (child process).  BBDTree::clustering on random "
         "lattice data with 1..8 centroids drawn from: half-integer grid, copies of rows, coincident "
         "centroids, far outside the data, midpoints of two rows (exact ties), means of row subsets, and "
         "Lloyd chains fed back as exact rationals, offset families; plus terminal states of the BbdFilter model. "
@@ -34,7 +36,7 @@ RULE = ("KMeans::fit + predict on every 1-D data set of 2..5 rows over {0..4} (k
         "cluster, or coincident centroids; distinct = distinct inputs (data, k, max_iter / data, centroids)")
 
 FIT_HITS = ("KMFit", "FitLattice", "FitCont", "FitF32", "Means", "PredictFx", "PredictExact", "PredictTie", "FitModel",
-            "FitOffset", "FitOffsetExact", "EmptyCluster", "ProbeEmpty")
+            "FitOffset", "FitOffsetExact", "EmptyCluster", "ProbeEmpty", "FitSwap", "FitComp", "PredictBackend")
 BBD_HITS = ("Bbd", "BbdTie", "BbdCoincident", "BbdEmpty", "BbdRational", "BbdModel", "BbdOffset")
 
 
@@ -101,8 +103,19 @@ def run(ctx):
             ec[json.dumps([d["X"], d["k"]])] = {"X": d["X"], "k": d["k"]}
     if not ec:
         raise vlib.ToolError("Lloyd.tla reached no empty cluster in LloydEC_%s.cfg" % tier)
+    # ... and the composition data sets on which a tie-free sweep exchanges members of a cluster without
+    # changing its count or coordinate total (a stale-centroid shortcut would go unnoticed there)
+    _, sprints = ctx.tlc_mc("cluster/Lloyd.tla", "cluster/LloydSW_%s.cfg" % tier, timeout=2400, must_cover=lcover,
+                            keep_prints=True, tag="mc-LloydSW")
+    sw = {}
+    for p in sprints:
+        if p and p[0] == "INFO":
+            d = json.loads(p[1])
+            sw[json.dumps([d["X"], d["k"]])] = {"X": d["X"], "k": d["k"], "cls": "swap"}
+    if not sw:
+        raise vlib.ToolError("Lloyd.tla shows no member exchange in LloydSW_%s.cfg" % tier)
     f_ec = ctx.path("c12-empty-configs.ndjson")
-    vlib.write_ndjson(f_ec, [ec[kk] for kk in sorted(ec)])
+    vlib.write_ndjson(f_ec, [ec[kk] for kk in sorted(ec)] + [sw[kk] for kk in sorted(sw)])
     f_refit = ctx.path("c12-refit.ndjson")
     ctx.harness("refit", f_ec, f_refit)
     cover = ("BLeaf", "BSplit", "BLowerDone", "BUpperDone", "Choose", "FDescend", "FAbsorbLeaf", "FAbsorbPruned")
@@ -124,6 +137,8 @@ def run(ctx):
     # ---- impl -> spec
     f_fit = ctx.path("c12-fit.ndjson")
     p = ctx.harness("gen-fit", f_fit)
+    f_comp = ctx.path("c12-comp.ndjson")
+    ctx.harness("gen-comp", f_comp)
     f_bbd = ctx.path("c12-bbd.ndjson")
     p2 = ctx.harness("gen-bbd", f_bbd)
     skipped = 0
@@ -131,7 +146,7 @@ def run(ctx):
         for tok in pp.stdout.split():
             if tok.startswith("skipped="):
                 skipped += int(tok.split("=")[1])
-    events = vlib.read_ndjson(f_fit) + vlib.read_ndjson(f_refit) + vlib.read_ndjson(f_bbd) + vlib.read_ndjson(rp_out)
+    events = vlib.read_ndjson(f_fit) + vlib.read_ndjson(f_refit) + vlib.read_ndjson(f_comp) + vlib.read_ndjson(f_bbd) + vlib.read_ndjson(rp_out)
     v, bads = validate(ctx, events, ctx.path("c12-all.ndjson"), f_model)
     for (l, runid, ev, clause) in bads:
         e = events[l - 1]
@@ -165,6 +180,8 @@ def run(ctx):
     ctx.extra["replayed_model_states"] = len(cases)
     ctx.extra["lloyd_terminal_states"] = len(lstates)
     ctx.extra["empty_cluster_configs_from_model"] = len(ec)
+    ctx.extra["member_exchange_configs_from_model"] = len(sw)
+    ctx.extra["fits_of_composition_data"] = sum(e.get("mult", 1) for e in events if e.get("cls") in ("swap", "comp"))
     ctx.extra["refits_of_empty_cluster_configs"] = refits
     ctx.extra["fits_with_empty_cluster_observed"] = empty_fits
     ctx.extra["distinct_outcomes_with_probe_labelled_by_memberless_centroid"] = hits.get("ProbeEmpty", 0)
